@@ -261,6 +261,8 @@ def check_channels(repo: Repo, run: Run, prop: str) -> None:
             # call; the shared namespace is a channel between *concurrent* calls and is judged by C16.T1
             run.ob(f"{prop}.H2", f"{w.kind.split('-')[0]}@{w.fn.qual}", True,
                    f"{w.cell}: " + ("per-call namespace" if w.kind == "exec-fresh" else "namespace shared across programs; reads are dominated by writes of the same call (listed; see C16.T1)"), site)
+        elif w.kind == "exec-unknown":
+            run.inconclusive(f"{prop}.H2", f"exec@{w.fn.qual}", f"the namespace handed to exec() could not be traced to a per-call or a shared dictionary ({w.detail[:80]})")
         elif w.kind.startswith("exec-") or w.kind == "namespace":
             ok = w.kind == "exec-fresh"
             run.ob(f"{prop}.H2", f"{w.kind.split('-')[0]}@{w.fn.qual}", ok,
